@@ -1,7 +1,7 @@
 (* C08 proofs, part 4: sweep order, export, alpha, conjugate gamma blocks, clipping. *)
 From Coq Require Import String.
 From Coq Require Import ZArith List QArith Qcanon Lia Arith Bool.
-From Batchie Require Import Lib.Num Lib.NumP Generated.Consts Model.Gibbs Model.GibbsSpec Proofs.C08Sums Proofs.C08Gauss Proofs.C08Cache.
+From Batchie Require Import Lib.Num Lib.NumP Generated.Consts Generated.ConstsMcmc Model.Gibbs Model.GibbsSpec Proofs.C08Sums Proofs.C08Gauss Proofs.C08Cache.
 Import ListNotations.
 Open Scope Qc_scope.
 
